@@ -4,7 +4,7 @@
    C18/Model.v ([run_req pid request kernel] = (answer, kernel afterwards)); specification: C18/Spec.v.
    [kget pid k] = the kernel's entry for pid; [kupd pid f k] changes that one entry by f;
    [set_nice/set_ioprio/set_mask/set_rlim] change one field of an entry. *)
-From PV Require Import C18.Spec C18.Proofs C18.ProofsReq C18.ProofsElig C18.ProofsThm.
+From PV Require Import C18.Spec C18.Legacy C18.Proofs C18.ProofsReq C18.ProofsElig C18.ProofsThm.
 
 (* the packing of proc.c loses nothing: for every class the C shift is defined for and
    every 13-bit data value the word fits an int and unpacks to the same pair *)
@@ -84,23 +84,23 @@ Theorem C18_rlimit_set_then_get : forall k pid p res s h,
 Proof. exact rlimit_set_then_get. Qed.
 Print Assumptions C18_rlimit_set_then_get.
 
-(* the invalid requests raise ValueError and leave the whole kernel state as it was.
-   CPU lists: for processes whose eligible CPUs are one range a-b (a < b) and which were never
-   narrowed ([plain_eligb]), and ids that fit a C long -- see the refuted theorems below. *)
+(* the invalid requests raise ValueError and leave the whole kernel state as it was;
+   CPU lists: every non-empty list without an eligible CPU, whatever the eligible set and the
+   current mask are (ids of any size, -1 included) *)
 Theorem C18_invalid_rejected : forall k pid p, kget pid k = Some p -> wf_procb k p = true -> pid <> 0 ->
   (forall c v, v < 0 \/ 7 < v -> run_req pid (Ionice (Some c) (Some v)) k = (Exc ValueError, k))
   /\ (forall c v, c = 0 \/ c = 3 -> v <> 0 -> run_req pid (Ionice (Some c) (Some v)) k = (Exc ValueError, k))
   /\ (forall v, run_req pid (Ionice None (Some v)) k = (Exc ValueError, k))
-  /\ (forall cpus, plain_eligb p = true -> cpus <> [] -> (forall c, In c cpus -> ~ In c (p_elig p)) ->
-        (forall c, In c cpus -> fits_long c = true) ->
+  /\ (forall cpus, cpus <> [] -> (forall c, In c cpus -> ~ In c (p_elig p)) ->
         run_req pid (Affinity (Some cpus)) k = (Exc ValueError, k))
   /\ (forall res l, length l <> 2%nat -> run_req pid (Rlimit res (Some l)) k = (Exc ValueError, k)).
 Proof. exact invalid_rejected. Qed.
 Print Assumptions C18_invalid_rejected.
 
-(* cpu_affinity([]) selects all eligible CPUs -- for the plain class *)
+(* cpu_affinity([]) selects all eligible CPUs: for every eligible set (one range, several
+   ranges, single CPUs) and every current mask (also after an earlier narrowing) *)
 Theorem C18_empty_affinity_all_eligible : forall k pid p,
-  kget pid k = Some p -> wf_procb k p = true -> plain_eligb p = true ->
+  kget pid k = Some p -> wf_procb k p = true ->
   let k' := kupd pid (set_mask (p_elig p)) k in
   run_req pid (Affinity (Some [])) k = (Val RNone, k')
   /\ kget pid k' = Some (set_mask (p_elig p) p)
@@ -108,43 +108,43 @@ Theorem C18_empty_affinity_all_eligible : forall k pid p,
 Proof. exact empty_affinity_all_eligible. Qed.
 Print Assumptions C18_empty_affinity_all_eligible.
 
-(* DEFECT: with a cpuset of two ranges only the first range is selected *)
-Theorem C18_empty_affinity_refuted_multirange :
+(* REPAIRED DEFECTS.  [leg_cpu_affinity] (C18/Legacy.v) is cpu_affinity before the commits
+   638fb52, 07b12aa, 7214dea; each theorem shows the old code failing the property on a
+   witness and the current model answering as demanded on the same input. *)
+Theorem C18_legacy_empty_affinity_refuted_multirange :
   exists k pid p, wf_kernelb k = true /\ kget pid k = Some p /\ wf_procb k p = true /\ p_mask p = p_elig p
-    /\ exists k', run_req pid (Affinity (Some [])) k = (Val RNone, k')
-       /\ kget pid k' = Some (set_mask [0; 1; 2; 3] p) /\ p_elig p = [0; 1; 2; 3; 8; 9; 10; 11].
-Proof. exact empty_affinity_refuted_multirange. Qed.
-Print Assumptions C18_empty_affinity_refuted_multirange.
+    /\ p_elig p = [0; 1; 2; 3; 8; 9; 10; 11]
+    /\ (exists k', leg_cpu_affinity pid (Some []) k = (Val RNone, k') /\ kget pid k' = Some (set_mask [0; 1; 2; 3] p))
+    /\ run_req pid (Affinity (Some [])) k = (Val RNone, kupd pid (set_mask (p_elig p)) k).
+Proof. exact legacy_empty_affinity_refuted_multirange. Qed.
+Print Assumptions C18_legacy_empty_affinity_refuted_multirange.
 
-(* DEFECT: a process narrowed to [0,1] earlier is left there (eligible: 0..7) *)
-Theorem C18_empty_affinity_refuted_narrowed :
+Theorem C18_legacy_empty_affinity_refuted_narrowed :
   exists k pid p, wf_kernelb k = true /\ kget pid k = Some p /\ wf_procb k p = true
     /\ p_elig p = [0; 1; 2; 3; 4; 5; 6; 7] /\ p_mask p = [0; 1]
-    /\ exists k', run_req pid (Affinity (Some [])) k = (Val RNone, k') /\ kget pid k' = Some p.
-Proof. exact empty_affinity_refuted_narrowed. Qed.
-Print Assumptions C18_empty_affinity_refuted_narrowed.
+    /\ (exists k', leg_cpu_affinity pid (Some []) k = (Val RNone, k') /\ kget pid k' = Some p)
+    /\ run_req pid (Affinity (Some [])) k = (Val RNone, kupd pid (set_mask (p_elig p)) k).
+Proof. exact legacy_empty_affinity_refuted_narrowed. Qed.
+Print Assumptions C18_legacy_empty_affinity_refuted_narrowed.
 
-(* DEFECT: cpuset "0,2", request [1]: OSError(EINVAL) instead of ValueError *)
-Theorem C18_invalid_cpu_refuted :
+Theorem C18_legacy_invalid_cpu_refuted :
+  exists k pid p, wf_kernelb k = true /\ kget pid k = Some p /\ wf_procb k p = true /\ p_elig p = [0; 2]
+    /\ leg_cpu_affinity pid (Some [1]) k = (Exc OSError, k)
+    /\ run_req pid (Affinity (Some [1])) k = (Exc ValueError, k).
+Proof. exact legacy_invalid_cpu_refuted. Qed.
+Print Assumptions C18_legacy_invalid_cpu_refuted.
+
+Theorem C18_legacy_huge_cpu_refuted :
   exists k pid p, wf_kernelb k = true /\ kget pid k = Some p /\ wf_procb k p = true
-    /\ p_elig p = [0; 2] /\ run_req pid (Affinity (Some [1])) k = (Exc OSError, k).
-Proof. exact invalid_cpu_refuted. Qed.
-Print Assumptions C18_invalid_cpu_refuted.
-
-(* DEFECT: a nonexistent CPU whose id does not fit a C long: OverflowError instead of ValueError *)
-Theorem C18_huge_cpu_refuted :
-  exists k pid p, wf_kernelb k = true /\ kget pid k = Some p /\ wf_procb k p = true /\ plain_eligb p = true
-    /\ run_req pid (Affinity (Some [2 ^ 70])) k = (Exc OverflowError, k).
-Proof. exact huge_cpu_refuted. Qed.
-Print Assumptions C18_huge_cpu_refuted.
+    /\ leg_cpu_affinity pid (Some [2 ^ 70]) k = (Exc OverflowError, k)
+    /\ run_req pid (Affinity (Some [2 ^ 70])) k = (Exc ValueError, k).
+Proof. exact legacy_huge_cpu_refuted. Qed.
+Print Assumptions C18_legacy_huge_cpu_refuted.
 
 (* the oracle of the correspondence run: wherever the specification demands an answer
-   ([spec_req] = Some (answer, kernel afterwards)) the model gives exactly that -- outside the
-   two finding classes (requests that go through _get_eligible_cpus on a non-plain process;
-   CPU ids beyond a C long) *)
+   ([spec_req] = Some (answer, kernel afterwards)) the model gives exactly that -- no exclusion *)
 Theorem C18_model_meets_spec : forall k pid p r exp,
   wf_kernelb k = true -> kget pid k = Some p -> wf_procb k p = true -> pid <> 0 ->
-  (uses_eligible p r = true -> plain_eligb p = true) -> huge_cpu r = false ->
   spec_req pid r k = Some exp -> run_req pid r k = exp.
 Proof. exact model_meets_spec. Qed.
 Print Assumptions C18_model_meets_spec.
